@@ -126,7 +126,12 @@ func (k Keeper) ClaimFromStream(ctx sdk.Context, receiverAddr, senderAddr sdk.Ac
 
 	// 6. update & save stream
 	stream.Deposit = remainingDeposit
-	stream.LastOutflowTime = nowTime
+	// the clock of a stream never runs backwards: in a block earlier than the last outflow (the first
+	// block of a chain restarted from an export carries the document's genesis time) nothing is due,
+	// and moving the last outflow time back would pay the period up to it a second time
+	if nowTime.After(stream.LastOutflowTime) {
+		stream.LastOutflowTime = nowTime
+	}
 	err := k.SetStream(ctx, receiverAddr, senderAddr, stream)
 
 	if err != nil {
